@@ -43,6 +43,8 @@ def hex_blocks(w):
         ('ptr_inc', 'hex.ptr_inc p'), ('ptr_dec', 'hex.ptr_dec p'), ('ptr_add', 'hex.ptr_add p, 3'), ('ptr_sub', 'hex.ptr_sub p, 2'),
         ('ptr_index', 'hex.ptr_index q, p, idx'),
         ('read_nth_hex', 'hex.read_nth_hex h, p, idx'), ('read_nth_byte', 'hex.read_nth_byte by, p, idx'),
+        # the in-place table walk x = T[x]: the destination is the index variable itself
+        ('read_nth_hex_into_its_index', 'hex.read_nth_hex idx, p, idx'), ('read_nth_byte_into_its_index', 'hex.read_nth_byte idx, p, idx'),
         ('write_nth_hex', 'hex.write_nth_hex p, idx, h'), ('write_nth_byte', 'hex.write_nth_byte p, idx, by'),
         ('ptr_flip', 'hex.ptr_flip p'), ('ptr_flip_dbit', 'hex.ptr_flip_dbit p'),
         # ptr_flip flips the BIT its pointer addresses: here the pointer q holds the address of data bit 2 of the cell p points at (a bit
@@ -148,6 +150,14 @@ def apply_model(name, S, w, K_):
         if not ok(t + sidx):
             return None
         S['by'] = c[t + sidx + 1]
+    elif name == 'read_nth_hex_into_its_index':
+        if not ok(t + sidx):
+            return None
+        S['idx'] = (S['idx'] & ~0xf) | (c[t + sidx + 1] & 0xf)
+    elif name == 'read_nth_byte_into_its_index':
+        if not ok(t + sidx):
+            return None
+        S['idx'] = (S['idx'] & ~0xff) | c[t + sidx + 1]
     elif name == 'write_nth_hex':
         if not ok(t + sidx):
             return None
